@@ -146,6 +146,41 @@ func fixFloatSweep[S constraints.Integer, D constraints.Float](w *numWriter, rng
 	}
 }
 
+// fixFloatAfterOther: the SAME source buffer (and a slice of it) is first converted into the other floating-point
+// type and only then into D: the result for a sample may depend on the sample and the two formats only, not on what
+// the source buffer was used for before (unordered scan).
+func fixFloatAfterOther[S constraints.Integer, D, O constraints.Float](w *numWriter, rng *rand.Rand, fn, sty, dty string,
+	conv func(*signal.Buffer[S], *signal.Buffer[D]) int, other func(*signal.Buffer[S], *signal.Buffer[O]) int, nrand int) {
+	p := 53
+	if floatBits[D]() == 32 {
+		p = 24
+	}
+	xs := intValues[S](rng, nrand/4)
+	if len(xs) > 400 {
+		idx := rng.Perm(len(xs))[:400]
+		ys := make([]S, 0, 400)
+		for _, i := range idx {
+			ys = append(ys, xs[i])
+		}
+		xs = ys
+	}
+	n := len(xs)
+	src := signal.Alloc[S](signal.Allocator{Channels: 1, Length: n, Capacity: n})
+	for i, v := range xs {
+		src.SetSample(i, v)
+	}
+	tmp := signal.Alloc[O](signal.Allocator{Channels: 1, Length: n, Capacity: n})
+	other(src, tmp) // first use of this source buffer: into the other float type
+	w.start(&NEvent{Fam: "fixfloat", Fn: fn, STy: sty, DTy: dty, Ss: b2i(isSigned[S]()), Sd: bitsOf[S](), Dd: floatBits[D](), P: p, Uo: 1})
+	for _, view := range []*signal.Buffer[S]{src, src.Slice(n/3, n)} {
+		dst := signal.Alloc[D](signal.Allocator{Channels: 1, Length: view.Len(), Capacity: view.Len()})
+		conv(view, dst)
+		for i := 0; i < view.Len(); i++ {
+			w.emit(&NEvent{Op: "P", X: numOfInt(view.Sample(i)), G: floatJ(float64(dst.Sample(i)))})
+		}
+	}
+}
+
 // fixFloatRoundTrips32 sweeps all 2^32 codes of a 32-bit source through conv and back.
 func fixFloatRoundTrips32[S constraints.Integer, D constraints.Float](w *numWriter, conv func(*signal.Buffer[S], *signal.Buffer[D]) int, back func(*signal.Buffer[D], *signal.Buffer[S]) int) {
 	var lo S
